@@ -49,7 +49,7 @@ def gen_quality_file(rng, nrows):
     for p in range(1, nrows + 1):
         # missingness drifts along the file, so that per-batch coverages are skewed (mean != median != pooled)
         late = p > 0.62 * nrows
-        small = rng.choice(['a', 'b', 'c', '', '{}', 'a', 'a']) if not late else rng.choice(['', '{}', '', 'a'])
+        small = rng.choice(['a', 'b', 'c', '', '{}', 'a', 'a', ' a', 'a ', ' ']) if not late else rng.choice(['', '{}', '', 'a', 'b '])      # values differing only by surrounding blanks are different values
         mid = str(rng.randrange(40)) if rng.random() < (0.98 if not late else 0.35) else ''
         wide = f'w{int(rng.paretovariate(0.7)) % 500}'
         sparse = rng.choice(['u', 'v', 'w']) if p <= 0.4 * nrows else ''          # entirely missing in the later batches: their coverage is exactly 0
